@@ -281,7 +281,13 @@ def write_evidence(prop, tier, seed, m, n_viol, known_lines, inconclusive,
         cov['observed_values'] = {g: v for g, v in cov['observed_values'].items()
                                   if not g.startswith('lines:')}
     ex = prop.exhaustive.get(tier) if isinstance(prop.exhaustive, dict) else None
-    if ex:
+    if ex and m['truncated']:
+        # an enumeration cut short by the time budget is not exhaustive
+        cov['exhaustive'] = False
+        cov['exhaustive_planned'] = ex
+        cov['exhaustive_note'] = ('%d worker(s) were stopped by the time budget before '
+                                  'their share of the enumeration was complete' % m['truncated'])
+    elif ex:
         cov['exhaustive'] = True
         cov['exhaustive_over'] = ex
     try:
